@@ -8,7 +8,9 @@ unset GOTOOLCHAIN GOSUMDB
 mkdir -p bin evidence replays
 cp -f /repo/go.sum go.sum 2>/dev/null
 tmp="bin/vc.$$"
-if ! go build -tags verif -o "$tmp" ./cmd/vc 2> "bin/build.$$.log"; then
+ov=()
+if [ -n "${VERIF_OVERLAY:-}" ]; then ov=(-overlay "$VERIF_OVERLAY"); fi
+if ! go build -tags verif "${ov[@]}" -o "$tmp" ./cmd/vc 2> "bin/build.$$.log"; then
   echo "HARNESS-ERROR: build of the checker against /repo failed (not a property verdict):" >&2
   cat "bin/build.$$.log" >&2
   rm -f "$tmp" "bin/build.$$.log"
